@@ -116,6 +116,31 @@ class Merge(ast.NodeTransformer):
         return node
 
     # --- statements
+    def _merge_return_tail(self, body):
+        """[..., If(test, [Return a], []), Return b]  ->  [..., Return(a if test else b)]   (pure a, b, test)"""
+        changed = True
+        while changed and len(body) >= 2:
+            changed = False
+            last, prev = body[-1], body[-2]
+            if (isinstance(last, ast.Return) and last.value is not None and isinstance(prev, ast.If) and not prev.orelse
+                    and len(prev.body) == 1 and isinstance(prev.body[0], ast.Return) and prev.body[0].value is not None
+                    and _pure_expr(prev.test) and _pure_expr(prev.body[0].value) and _pure_expr(last.value)):
+                new = ast.Return(value=ast.IfExp(test=prev.test, body=prev.body[0].value, orelse=last.value))
+                body[-2:] = [ast.copy_location(new, prev)]
+                changed = True
+        if body and isinstance(body[-1], ast.If) and len(body[-1].body) == 1 and len(body[-1].orelse) == 1 \
+                and isinstance(body[-1].body[0], ast.Return) and isinstance(body[-1].orelse[0], ast.Return) \
+                and body[-1].body[0].value is not None and body[-1].orelse[0].value is not None \
+                and _pure_expr(body[-1].test) and _pure_expr(body[-1].body[0].value) and _pure_expr(body[-1].orelse[0].value):
+            n = body[-1]
+            body[-1] = ast.copy_location(ast.Return(value=ast.IfExp(test=n.test, body=n.body[0].value, orelse=n.orelse[0].value)), n)
+        return body
+
+    def visit_FunctionDef(self, node):
+        node.body = self._merge_return_tail(list(node.body))
+        self.generic_visit(node)
+        return node
+
     def visit_If(self, node):
         simple = _pure_expr(node.test) and _simple_block(node.body) and _simple_block(node.orelse)
         orig = copy.deepcopy(node)
